@@ -167,6 +167,7 @@ CHECKS["C20"] = {
         {"pkg": CLIENT, "run": "^TestVerif_C20_StreamTimeout$", "checks": {"quick": 300, "thorough": 20000}, "shards": {"thorough": 8}},
         {"pkg": SERVER, "run": "^TestVerif_C20_SigAfterRetry$", "checks": {"quick": 150, "thorough": 10000}, "shards": {"thorough": 8}},
         {"pkg": SERVER, "run": "^TestVerif_C20_ServerNames$", "checks": {"quick": 150, "thorough": 10000}, "shards": {"thorough": 8}},
+        {"pkg": CKCLIENT, "run": "^TestVerif_C20_ProgramNames$", "checks": {"quick": 12, "thorough": 300}, "shards": {"thorough": 4}, "timeout": {"quick": 600}},
     ],
 }
 
@@ -223,6 +224,7 @@ CHECKS["C10"] = {
     "jobs": [
         {"pkg": SERVER, "run": "^TestVerif_C10_Wire$", "checks": {"quick": 150, "thorough": 10000}, "shards": {"thorough": 16}, "timeout": {"quick": 600}},
         {"pkg": SERVER, "run": "^TestVerif_C10_Datagrams$", "checks": {"quick": 300, "thorough": 20000}, "shards": {"thorough": 8}, "timeout": {"quick": 600}},
+        {"pkg": CKCLIENT, "run": "^TestVerif_C10_Program$", "checks": {"quick": 12, "thorough": 300}, "shards": {"thorough": 4}, "timeout": {"quick": 600}},
     ],
 }
 
